@@ -78,6 +78,10 @@ def compare_once(fin, fout, world, align=None):
         return Verdict("inconclusive", why="ill-conditioned(out): " + str(ex))
     except (ZeroDivisionError, OverflowError, FloatingPointError, np.linalg.LinAlgError) as ex:
         return Verdict("inconclusive", why="numeric(out): " + type(ex).__name__)
+    except (IndexError, KeyError, ValueError, TypeError, AttributeError) as ex:
+        # the input was evaluated without complaint, the output is so malformed (inconsistent index extents,
+        # shapes, missing operands) that the interpreter cannot even walk it
+        return Verdict("disagree", why="output-structure: not evaluable: " + type(ex).__name__ + ": " + str(ex)[:120])
     flags = fa | set(b.flags)
     if a.rank != b.rank or tuple(a.fi) != tuple(b.fi) or a.arr.shape != b.arr.shape:
         return Verdict("disagree", why="structure", shapes=(a.arr.shape, a.fi, b.arr.shape, b.fi))
